@@ -11,9 +11,9 @@ RULE = ('case = one s[i], s[i:j], clip(a,b) or iteration on a reachable value, b
         'selection; distinct = distinct (source text+settings, index/slice).')
 ASSUMPTIONS = ['slice.indices and str slicing are the reference for bounds',
                'precedence-equivalence (DESIGN 2.2) is the comparison for "same settings, same precedence"',
-               'base texts containing ESC are grey']
+               'for base texts containing ESC only the text clause is judged']
 MIN_EVAL = 500
-CASES = {'quick': 70, 'thorough': 1600}
+CASES = {'quick': 700, 'thorough': 9600}
 WEIGHTS = {'apply': 12, 'getitem': 10, 'clip': 4, 'iter': 0.6, 'remove': 4, 'query': 0.1, 'find_settings': 0.1,
            'settings_at': 0.1}
 
@@ -54,9 +54,7 @@ class SliceContract(Contract):
         ctx = self.ctx
         L = self.L
         n = len(o.text)
-        if O.has_esc(o.text):
-            ctx.grey('esc-in-text')
-            return
+        esc = O.has_esc(o.text)
         if call.name == '__getitem__':
             val = call.arg(0, 'val')
             kind = 'int' if isinstance(val, int) and not isinstance(val, bool) else 'slice'
@@ -109,6 +107,10 @@ class SliceContract(Contract):
         if r.text != exp_text:
             ctx.violation('text', dict(det, expected_text=exp_text), call,
                           mech='int-index-text' if kind == 'int' else 'slice-text')
+            return
+        if esc:
+            # base texts containing ESC: only the text clause is judged (the settings clauses are grey)
+            ctx.grey('esc-in-text:settings-clauses')
             return
         d = O.first_diff_equiv(o.texts[a:b], r.texts)
         if d is not None:
@@ -175,7 +177,7 @@ def drive(ctx, mon, tier, only_case=None):
 
     def body(rng, ex, case):
         profile = 'mixed' if rng.random() < 0.3 else 'wf'
-        history(L, rng, ex, rng.randint(1, sz['nops']), sz['maxlen'], profile, WEIGHTS)
+        history(L, rng, ex, rng.randint(1, sz['nops']), sz['maxlen'], profile, WEIGHTS, esc=rng.random() < 0.12)
         vals = ansi_values(L, ex)
         for v in vals[-8:]:
             o = safe_obs(mon, v)
